@@ -98,7 +98,7 @@ theorem search_cons (fuel : Nat) (idx : PI) (k : String) (v : J) (rest : List (S
   simp only [search, stepVal]
   by_cases hk : (isVar k && !rest.isEmpty) = true
   · simp only [hk, if_true]
-  · simp only [hk, if_false]
+  · simp only [hk]
     cases hki : (idx.child (.str k)).orElse (fun _ => idx.child (.str "?")) with
     | none => rfl
     | some ki =>
